@@ -191,6 +191,7 @@ func execute(r *core.Run, c *Case) {
 			var serr error
 			if p := core.Guard(func() { raw, serr = env.Sign(req) }); p != nil {
 				r.Count("panicked", 1)
+				fail(i, "valid-sign-panicked", "valid request made Sign panic: "+p.Value)
 				return
 			}
 			if serr != nil || len(raw) == 0 {
